@@ -52,6 +52,41 @@ for d in ("up", "down"):
     H("kani-pure", "c12::c12_size_from_hint_%s" % d, ["C12"], bounds=C12B, inst="raw size hint (Bump::with_size / minimum chunk size), direction " + d, timeout_s=900)
 H("kani-pure", "c12::c12_canary_create", ["C12"], kind="canary", expect_fail=["CANARY"], bounds=C12B, inst="deliberately false claim must be refuted")
 
+# ------------------------------------------------------------------------------------------------
+# E-slice: one operation from an arbitrary state (len <= CAP = 4) over a stack array
+# ------------------------------------------------------------------------------------------------
+SLB = "len <= 4 (CAP), ids 0..len with symbolic payload bytes; all argument values (usize) unless stated; unwind 10"
+SL_STUBS = "stubs: core::ptr::copy / copy_nonoverlapping -> count-case-split copy (CBMC drops the last multi-byte element on symbolic counts)"
+
+
+def S(mod, name, props, inst, **kw):
+    kw.setdefault("timeout_s", 600)
+    kw.setdefault("mem_gb", 3)
+    H("kani-slice", "%s::%s" % (mod, name), props, stubbing=True, bounds=SLB, inst=inst, unwind=10, note=SL_STUBS, **kw)
+
+
+S("boxed", "box_pop", ["C06", "C08"], "BumpBox<[E]>::pop")
+S("boxed", "box_clear", ["C06", "C08"], "BumpBox<[E]>::clear")
+S("boxed", "box_truncate", ["C06", "C08"], "BumpBox<[E]>::truncate(n), any n")
+S("boxed", "box_remove", ["C06", "C08"], "BumpBox<[E]>::remove(i), i < len")
+S("boxed", "box_swap_remove", ["C06", "C08"], "BumpBox<[E]>::swap_remove(i), i < len")
+S("boxed", "box_split_off", ["C16", "C06"], "BumpBox<[E]>::split_off(start..end), every prefix/suffix/empty/full range; then drop either part first")
+S("boxed", "box_split_off_interior", ["C16", "C06"], "split_off of every interior non-empty range (4 concrete shapes for len <= 4, payloads symbolic): both rotate branches")
+S("boxed", "box_split_at_merge", ["C16"], "split_at(at) then merge")
+S("boxed", "box_split_first_last", ["C16", "C06"], "split_first / split_last")
+S("boxed", "box_split_off_first_last", ["C16", "C06"], "split_off_first / split_off_last")
+S("boxed", "box_retain", ["C06", "C08"], "retain under every predicate (mask)")
+S("boxed", "box_drain", ["C06", "C08"], "drain(start..end) consumed 0..2 front / 0..1 back then dropped")
+S("boxed", "box_extract_if", ["C06", "C08"], "extract_if under every predicate, consumed 0..4 then dropped")
+S("boxed", "box_dedup_by", ["C06", "C08"], "dedup_by under every neighbour relation")
+S("boxed", "box_partition", ["C16", "C06"], "partition under every predicate")
+S("boxed", "box_map_in_place", ["C16", "C06"], "map_in_place E -> u8")
+S("boxed", "box_map_in_place_same", ["C16", "C06"], "map_in_place E -> E")
+S("boxed", "box_into_iter", ["C06", "C08"], "into_iter consumed 0..2 from each end then dropped")
+S("boxed", "box_into_flattened", ["C16", "C06"], "BumpBox<[[E;2]]>::into_flattened, 0..2 arrays")
+S("boxed", "box_single_routes", ["C06"], "BumpBox<E>: drop / into_inner / leak / into_raw+from_raw")
+S("boxed", "box_zst_ops", ["C06", "C08", "C16"], "zero-sized elements: pop/truncate/remove/swap_remove/split_off/clear")
+
 
 def for_property(pid, tier):
     out = []
